@@ -639,7 +639,7 @@ func TestVerif_C34(t *testing.T) {
 	defer srv.Stop()
 	env := &c34Env{srv: srv, admin: srv.Session(t, "admin", "")}
 	known := map[string]int{}
-	vh.Check(t, "model", 200, 700, func(rt *rapid.T) {
+	vh.Check(t, "model", 200, 500, func(rt *rapid.T) {
 		c34Run(rt, env, rec, known)
 	})
 	for id, n := range known {
@@ -675,11 +675,8 @@ func c34Run(rt *rapid.T, env *c34Env, rec *vh.Recorder, known map[string]int) {
 	c.m.commit(false)
 	if rapid.Bool().Draw(rt, "second_commit") {
 		c.randomDML(rapid.IntRange(1, 3).Draw(rt, "c2_changes"), "c2")
-		c.step("CALL dolt_commit('-Am','c2')", false)
 		c.m.addAll()
-		if c.m.commit(false) {
-			rt.Fatalf("prelude: model says nothing to commit")
-		}
+		c.step("CALL dolt_commit('-Am','c2')", c.m.commit(false)) // the drawn changes may cancel out: then both must say "nothing to commit"
 	}
 	// hashes of the commits so far
 	hashes := c.act.MustQuery(rt, "SELECT commit_hash FROM dolt_log ORDER BY commit_order")
@@ -700,14 +697,14 @@ func c34Run(rt *rapid.T, env *c34Env, rec *vh.Recorder, known map[string]int) {
 		c.step("CALL dolt_checkout('b1')", false)
 		c.m.cur = "b1"
 		c.randomDML(rapid.IntRange(1, 2).Draw(rt, "b1_changes"), "b1c")
-		c.step("CALL dolt_commit('-Am','b1c')", false)
 		c.m.addAll()
-		if c.m.commit(false) {
-			rt.Fatalf("prelude: model says nothing to commit on b1")
-		}
+		nothing := c.m.commit(false)
+		c.step("CALL dolt_commit('-Am','b1c')", nothing)
 		c.step("CALL dolt_checkout('main')", false)
 		c.m.cur = "main"
-		classes["heads_differ"] = true
+		if !nothing {
+			classes["heads_differ"] = true
+		}
 	}
 	// half of the cases are steered towards DESIGN's non-trivial shape: b1 dirty from the start, a
 	// stash over a doubly dirty table first, later a --move checkout from a dirty working set
